@@ -1129,6 +1129,18 @@ def run_C16(rng, tier):
             groups.append(("long", sampled(d, xs, dict(meta, mode="f64"), 997), sampled(d, xs, dict(meta, mode="ex"), 997), None))
             if name in ("WRolling", "WRollingMean"):
                 break
+    # medium-length streams compared at EVERY step (an effect tied to the update count cannot hide between samples)
+    for name in C16_VIEWS + ["WRolling", "WRollingMean"]:
+        n = rng.choice([3, 7, 20])
+        d = (name, E) if name in ("WRolling", "WRollingMean") else (name, n, E)
+        c = F(500)
+        xs = []
+        for _ in range(2600 if name != "Ema" else 1200):
+            st = F(rng.below(9900) + 1, 100) * rng.choice([1, -1])
+            c = c + st if F(1) <= c + st <= F(1000) else c - st
+            xs.append(c)
+        meta = {"view": name, "regime": "dense-bounded-range", "model": False}
+        groups.append(("long", Case(d, [("v", 0, x) for x in xs], dict(meta, mode="f64")), Case(d, [("v", 0, x) for x in xs], dict(meta, mode="ex")), None))
     # volatile stretch, then >= N+1 identical values
     for name in C16_VIEWS + ["Cyber"]:
         for rep in range(3 * k):
